@@ -213,7 +213,9 @@ fn big(s: &str) -> num::BigInt {
 fn main() {
     // silence the default panic hook: panics are reported in-band
     std::panic::set_hook(Box::new(|_| {}));
-    let db = Db::in_memory().expect("in-memory db");
+    // RAC_DB_DISK: open the on-disk database under $XDG_DATA_HOME (built on first use) so that several processes share ONE database
+    // (an in-memory index is rebuilt per process by a multi-threaded writer: equal-score matches are then ordered differently per process)
+    let db = if std::env::var_os("RAC_DB_DISK").is_some() { Db::open().expect("on-disk db") } else { Db::in_memory().expect("in-memory db") };
     let stdin = std::io::stdin();
     let stdout = std::io::stdout();
     let mut out = std::io::BufWriter::new(stdout.lock());
